@@ -108,6 +108,13 @@ theorem C04_frontmatter_tokens_tile_tail (cs : CharSpec) (s : List Char) (fm : F
     conv => rhs; rw [e]
     simp only [utf8Len_append]
 
+/-- The blocks of the splitter are in source order and disjoint: every token of an earlier block
+    ends at or before the start of every token of a later block (the part of `events_ordered`
+    that concerns different blocks: all spans of a block's events are built from its tokens). -/
+theorem C04_blocks_in_source_order (off : Nat) (ts : List Tok) (h : Chain off ts) (f : Nat) :
+    (allBlocks f ts).Pairwise (fun b1 b2 => ∀ u ∈ b1, ∀ v ∈ b2, u.stop ≤ v.start) :=
+  blocks_all_ordered f off ts h
+
 /-! non-vacuity: blank line, fence, a YAML line with a two-byte character, fence, body -/
 example :
     (parseFrontmatter ⟨fun c => c == ' ', fun _ => false, fun _ => true, fun c => c == ' ' || c == '\n', fun _ => true⟩
